@@ -237,6 +237,19 @@ def step (st : State) (w : List String) : State × String :=
       ({ st with replies := log }, serveStr (serveDNS st.cfg st.ps.mem q t))
     | _, _ => (st, "bad-op")
   | ["bl", "held"] => (st, heldStr st.replies)
+  | ["bl", "apibody", kind, variant, _key] =>
+    -- a batch request whose body readBatchKeys refuses
+    let body : Option BatchBody :=
+      if variant == "malformed" || variant == "wrongtype" then some .malformed
+      else if variant == "unknown" then some .unknownField
+      else if variant == "toolarge" then some .tooLarge
+      else if variant == "nullkeys" || variant == "emptyobj" then some (.keys [])
+      else none
+    match body with
+    | some body =>
+      let r := apiBatch true (kind == "set") st.ps body
+      ({ st with ps := r.1 }, s!"status={r.2}")
+    | none => (st, "bad-op")
   | ["bl", "apideny", kind, arg] =>
     -- a request without / with a wrong bearer token: 401, nothing happens
     let req : Option ApiReq :=
